@@ -69,22 +69,12 @@ func combine(fields []st.Field) []st.Field {
 	new := st.Field{}
 	cur := ""
 	var out []st.Field
-	wasPad := true
 	for _, field := range fields {
-		var prefix string
 		if field.IsPadding {
-			wasPad = true
 			continue
 		}
 		p := strings.Split(field.Name, ".")
-		prefix = strings.Join(p[:2], ".")
-		if field.Align > new.Align {
-			new.Align = field.Align
-		}
-		if !wasPad {
-			new.End = field.Start
-			new.Size = new.End - new.Start
-		}
+		prefix := strings.Join(p[:2], ".")
 		if prefix != cur {
 			if cur != "" {
 				out = append(out, new)
@@ -94,10 +84,15 @@ func combine(fields []st.Field) []st.Field {
 			new.Name = prefix
 		} else {
 			new.Type = "struct"
+			if field.Align > new.Align {
+				new.Align = field.Align
+			}
+			// A struct ends where its last field ends, rounded up to
+			// the struct's alignment.
+			new.End = new.Start + align(field.End-new.Start, new.Align)
+			new.Size = new.End - new.Start
 		}
-		wasPad = false
 	}
-	new.Size = new.End - new.Start
 	out = append(out, new)
 	return out
 }
